@@ -7,19 +7,35 @@ namespace Stk
 
 theorem flag_xs (s : Stk) (ys : List Val) (f : Nat) : ({ s with xs := ys } : Stk).flag f = s.flag f := rfl
 
+theorem WF.cap_isLen {s : Stk} (hwf : s.WF) : IsLen s.cfg.cap := by
+  rw [isLen_iff]
+  rcases hwf.capOk with h | ⟨h1, h2, _⟩
+  · rw [h]; omega
+  · rw [pow62] at h2; omega
+
+theorem WF.rawLen_isRawLen {s : Stk} (hwf : s.WF) : IsRawLen s.rawLen := small_isRawLen hwf.small
+
+theorem WF.ulen_isLen {s : Stk} (hwf : s.WF) : IsLen s.ulen := by
+  rw [ulen_eq s hwf.small]; exact small_isLen hwf.small
+
+/-- the regenerated `isFull`, by what it means -/
+theorem isFull_sem (s : Stk) (hwf : s.WF) : s.isFull = decide (s.cfg.cap ≠ 0 ∧ s.rawLen = s.cfg.cap) := by
+  unfold isFull
+  exact GenSem.isFull _ _ hwf.cap_isLen (fun _ => hwf.rawLen_isRawLen)
+
 theorem isFull_iff (s : Stk) (hwf : s.WF) :
     s.isFull = (match s.opts.room with | some 0 => true | _ => false) := by
-  unfold isFull Gen.isFull opts
+  rw [isFull_sem s hwf]
+  unfold opts
   rcases hwf.capOk with h | ⟨h1, h2, h3⟩
   · simp [h]
   · have hne : s.cfg.cap ≠ 0 := by omega
-    simp only [hne, ↓reduceIte, beq_iff_eq]
+    simp only [hne, ↓reduceIte, ne_eq, not_false_eq_true, true_and]
     by_cases hf : s.rawLen = s.cfg.cap
     · have : (s.cfg.cap - s.rawLen).toNat = 0 := by omega
       simp [hf, this]
     · have : (s.cfg.cap - s.rawLen).toNat ≠ 0 := by omega
-      have hx : (s.rawLen == s.cfg.cap) = false := by simp [hf]
-      rw [hx]
+      simp only [hf, decide_false]
       split
       · rename_i heq; simp at heq; omega
       · rfl
@@ -31,9 +47,9 @@ theorem wf_append (s : Stk) (x : Val) (hwf : s.WF) (hs : SmallLen (s.xs.length +
   · rcases hwf.capOk with h | ⟨h1, h2, h3⟩
     · exact Or.inl h
     · refine Or.inr ⟨h1, h2, ?_⟩
-      unfold isFull Gen.isFull at hroom
+      rw [isFull_sem s hwf] at hroom
       have hne : s.cfg.cap ≠ 0 := by omega
-      simp [hne] at hroom
+      simp only [ne_eq, hne, not_false_eq_true, true_and, decide_eq_false_iff_not] at hroom
       unfold rawLen at *
       simp only [List.length_append, List.length_cons, List.length_nil]
       omega
@@ -117,92 +133,81 @@ theorem rawGetSlot_succ (s : Stk) (p : Nat) (hp : p < s.xs.length) :
   have h3 : ((p:Int) + 1 - 1).toNat = p := by omega
   simp only [h1, h2, ↓reduceIte, h3]
 
+/-- the regenerated success test of `insert` holds when exactly one element was added -/
+theorem insert_ok_true (s' : Stk) (n : Nat) (hs : SmallLen (n + 1)) (hlen : s'.xs.length = n + 1) :
+    Gen.insert_ok_append { u1 := (n : Int), ulen := s'.ulen } = true := by
+  have hsm' : SmallLen s'.xs.length := by rw [hlen]; exact hs
+  have h1 : IsLen (((n + 1 : Nat)) : Int) := small_isLen hs
+  have h0 : IsLen (n : Int) := by rw [isLen_iff] at *; omega
+  rw [ulen_eq s' hsm', hlen]
+  simp only [GenSem.insert_ok_append, h0, h1, decide_eq_true_eq]
+  omega
+
 /-- `stack.insert`: fails on a full stack, otherwise inserts at the clamped position -/
 theorem insert_spec (s : Stk) (x : Val) (left : Int) (hwf : s.WF) (hs : SmallLen (s.xs.length + 1))
     (hl : InInt left) :
     s.insert x left =
       .ok (if s.opts.room == some 0 then (s, false) else ({ s with xs := ins s.xs x left }, true)) := by
   have hu := ulen_eq s hwf.small
-  have hfull := isFull_iff s hwf
+  have hlen := small_isLen hwf.small
+  have hl0 := hl
   rw [inInt_iff] at hl
   have hsm := hwf.small
-  unfold SmallLen at hs hsm; rw [pow62] at hs hsm
+  unfold SmallLen at hsm; rw [pow62] at hsm
   unfold insert
-  simp only [hu]
-  have hfullG : Gen.insert_full { u1 := (s.xs.length : Int), cap := s.cfg.cap } = (s.opts.room == some 0) := by
-    unfold Gen.insert_full opts rawLen
+  -- the regenerated guards, by what they mean
+  simp only [hu, GenSem.insert_full, GenSem.insert_append, GenSem.insert_front, hlen, hwf.cap_isLen, hl0,
+    inInt_wrap64, decide_eq_true_eq]
+  have hfullG : (s.cfg.cap ≠ 0 ∧ s.cfg.cap ≤ (s.xs.length : Int) + 1) ↔ (s.opts.room == some 0) = true := by
+    unfold opts rawLen
     rcases hwf.capOk with h | ⟨h1, h2, h3⟩
     · simp [h]
     · unfold rawLen at h3
       have hne : s.cfg.cap ≠ 0 := by omega
-      have e1 : wrap64 ((s.xs.length:Int) + 1) = (s.xs.length:Int) + 1 := by rw [wrap64_eq] <;> omega
-      have e2 : wrap64 (s.cfg.cap - 1) = s.cfg.cap - 1 := by rw [wrap64_eq] <;> omega
-      simp only [e1, e2, hne, ↓reduceIte]
-      by_cases hf : (s.xs.length:Int) + 1 = s.cfg.cap
-      · have : (s.cfg.cap - ((s.xs.length:Int) + 1)).toNat = 0 := by omega
-        have h4 : (s.xs.length:Int) + 1 > s.cfg.cap - 1 := by omega
-        simp [this, h4, hne]
-      · have : (s.cfg.cap - ((s.xs.length:Int) + 1)).toNat ≠ 0 := by omega
-        have h4 : ¬ ((s.xs.length:Int) + 1 > s.cfg.cap - 1) := by omega
-        simp [this, h4]
-  rw [hfullG]
+      simp only [hne, ↓reduceIte, ne_eq, not_false_eq_true, true_and, beq_iff_eq, Option.some.injEq]
+      omega
+  simp only [hfullG]
   by_cases hr : (s.opts.room == some 0) = true
   · simp [hr]
   · have hr' : (s.opts.room == some 0) = false := by simpa using hr
     simp only [hr', Bool.false_eq_true, ↓reduceIte]
-    unfold Gen.insert_append Gen.insert_front Gen.insert_ok_append ins
-    generalize hn : s.xs.length = n at *
-    by_cases happ : (n:Int) - 1 < left
-    · have e1 : wrap64 ((n:Int) - 1) = (n:Int) - 1 := by rw [wrap64_eq] <;> omega
-      have hsm' : SmallLen (({ s with xs := s.xs ++ [x] } : Stk).xs.length) := by
-        unfold SmallLen; rw [pow62]; simp [hn]; omega
-      have hu' := ulen_eq { s with xs := s.xs ++ [x] } hsm'
-      simp only [List.length_append, List.length_cons, List.length_nil, hn] at hu'
-      have e2 : wrap64 ((n:Int) + 1) = (n:Int) + 1 := by rw [wrap64_eq] <;> omega
-      simp only [e1, happ, decide_true, ↓reduceIte, hu', e2]
+    unfold ins
+    by_cases happ : (s.xs.length : Int) ≤ left
+    · simp only [happ, ↓reduceIte]
+      rw [insert_ok_true _ s.xs.length hs (by simp)]
       by_cases hle : left ≤ 0
-      · have : n = 0 := by omega
-        subst this
-        have : s.xs = [] := by simpa using hn
+      · have : s.xs.length = 0 := by omega
+        have : s.xs = [] := by simpa using this
         simp [hle, this]
-      · have hge : left ≥ (n:Int) := by omega
+      · have hge : left ≥ (s.xs.length : Int) := by omega
         simp [hle, hge]
-    · have e1 : wrap64 ((n:Int) - 1) = (n:Int) - 1 := by rw [wrap64_eq] <;> omega
-      have e3 : wrap64 (left + 1) = left + 1 := by rw [wrap64_eq] <;> omega
-      simp only [e1, happ, decide_false, Bool.false_eq_true, ↓reduceIte, e3]
+    · have e3 : wrap64 (left + 1) = left + 1 := by rw [wrap64_eq] <;> omega
+      simp only [happ, ↓reduceIte, e3]
       by_cases hle : left ≤ 0
       · have h1 : left + 1 ≤ 1 := by omega
-        have hsm' : SmallLen (({ s with xs := x :: s.xs } : Stk).xs.length) := by
-          unfold SmallLen; rw [pow62]; simp [hn]; omega
-        have hu' := ulen_eq { s with xs := x :: s.xs } hsm'
-        simp only [List.length_cons, hn] at hu'
-        have e2 : wrap64 ((n:Int) + 1) = (n:Int) + 1 := by rw [wrap64_eq] <;> omega
-        simp [h1, hle, hu', e2]
+        simp only [h1, hle, ↓reduceIte]
+        rw [insert_ok_true _ s.xs.length hs (by simp)]
       · have h1 : ¬ (left + 1 ≤ 1) := by omega
-        have hge : ¬ (left ≥ (n:Int)) := by omega
+        have hge : ¬ (left ≥ (s.xs.length : Int)) := by omega
         have hpan : ¬ (left + 1 + 1 > s.rawLen) := by unfold rawLen; omega
         have hnn : (left + 1 - 1).toNat = left.toNat := by
           have : left + 1 - 1 = left := by omega
           rw [this]
-        have hlen : (List.take left.toNat s.xs ++ x :: List.drop left.toNat s.xs).length = n + 1 := by
-          simp [List.length_take, List.length_drop, hn]; omega
-        have hsm' : SmallLen (({ s with xs := List.take left.toNat s.xs ++ x :: List.drop left.toNat s.xs } : Stk).xs.length) := by
-          unfold SmallLen; rw [pow62]; simp only [hlen]; omega
-        have hu' := ulen_eq { s with xs := List.take left.toNat s.xs ++ x :: List.drop left.toNat s.xs } hsm'
-        simp only [hlen] at hu'
-        have e2 : wrap64 ((n:Int) + 1) = (n:Int) + 1 := by rw [wrap64_eq] <;> omega
-        simp only [h1, decide_false, Bool.false_eq_true, ↓reduceIte, hpan, hnn, hu', e2, hle, hge]
-        simp
+        have hlen' : (List.take left.toNat s.xs ++ x :: List.drop left.toNat s.xs).length = s.xs.length + 1 := by
+          simp [List.length_take, List.length_drop]; omega
+        simp only [h1, ↓reduceIte, hpan, hnn, hle, hge]
+        rw [insert_ok_true _ s.xs.length hs hlen']
 
 /-- `stack.replace`: only positions `0 ≤ i < Len` -/
 theorem replace_spec (s : Stk) (x : Val) (i : Int) (hwf : s.WF) (hi : InInt i) :
     s.replace x i = .ok (if inRange s.xs i then ({ s with xs := s.xs.set i.toNat x }, true) else (s, false)) := by
   have hu := ulen_eq s hwf.small
+  have hi0 := hi
   rw [inInt_iff] at hi
   have hsm := hwf.small
   unfold SmallLen at hsm; rw [pow62] at hsm
-  unfold replace Gen.replace_ok inRange
-  simp only [hu]
+  unfold replace inRange
+  simp only [hu, GenSem.replace_ok, small_isLen hwf.small, hi0, decide_eq_true_eq]
   by_cases h : 0 ≤ i ∧ i < (s.xs.length : Int)
   · have e1 : wrap64 (i + 1) = ((i.toNat : Nat) : Int) + 1 := by rw [wrap64_eq] <;> omega
     have hp : i.toNat < s.xs.length := by omega
@@ -218,6 +223,8 @@ theorem swap_spec (s : Stk) (i j : Int) (hwf : s.WF) (hi : InInt i) (hj : InInt 
     s.swap i j = .ok (if inRange s.xs i && inRange s.xs j
                       then { s with xs := swapAt s.xs i.toNat j.toNat } else s) := by
   have hu := ulen_eq s hwf.small
+  have hi0 := hi
+  have hj0 := hj
   rw [inInt_iff] at hi hj
   have hsm := hwf.small
   unfold SmallLen at hsm; rw [pow62] at hsm
@@ -225,8 +232,7 @@ theorem swap_spec (s : Stk) (i j : Int) (hwf : s.WF) (hi : InInt i) (hj : InInt 
   -- the regenerated guard fires exactly when one of the positions is outside 0 ≤ · < Len
   have hrej : Gen.swap_reject { i := i, j := j, ulen := s.ulen } =
       !((decide (0 ≤ i) && decide (i < (s.xs.length : Int))) && (decide (0 ≤ j) && decide (j < (s.xs.length : Int)))) := by
-    unfold Gen.swap_reject
-    simp only [hu]
+    simp only [hu, GenSem.swap_reject, small_isLen hwf.small, hi0, hj0]
     by_cases h1 : 0 ≤ i <;> by_cases h2 : i < (s.xs.length : Int) <;> by_cases h3 : 0 ≤ j <;>
       by_cases h4 : j < (s.xs.length : Int) <;> simp [h1, h2, h3, h4]
   rw [hrej]
@@ -287,10 +293,9 @@ theorem remove_spec (s : Stk) (i : Int) (hwf : s.WF) (hi : InInt i) :
       unfold SmallLen; rw [pow62]; simp [List.length_eraseIdx, hplt]; omega
     have hu' := ulen_eq { s with xs := s.xs.eraseIdx p } hsm'
     have hlen : (s.xs.eraseIdx p).length = s.xs.length - 1 := by simp [List.length_eraseIdx, hplt]
-    have e1 : wrap64 ((s.xs.length:Int) - 1) = (s.xs.length:Int) - 1 := by rw [wrap64_eq] <;> omega
     have e2 : ((s.xs.length - 1 : Nat) : Int) = (s.xs.length:Int) - 1 := by omega
-    unfold Gen.remove_ok
-    simp only [hpp, hu, hu', hlen, e1, e2]
+    have hl1 : IsLen ((s.xs.length : Int) - 1) := by rw [isLen_iff]; omega
+    simp only [hpp, hu, hu', hlen, e2, GenSem.remove_ok, small_isLen hwf.small, hl1, and_true]
     generalize s.xs.getD p .nil = v
     cases v <;> simp [Val.isNil]
 
